@@ -396,6 +396,7 @@ def trim_obs(obs):
 # family 2: both backends over loopback sockets
 # ------------------------------------------------------------------------------------------------
 class Live(Family):
+    realtime = True     # runs on the wall clock (sockets, threads): a failure is re-run once before it counts (core.run_family)
     name = "live"
     parallel = False
     quick_n = 4
@@ -538,6 +539,7 @@ class Concurrent(Family):
     client holds still (or aborts) while the others are served, so that it is parked half-written under
     the transport's flow control when the other responses start.  Oracle per client: exactly its own
     header + body, then EOF."""
+    realtime = True     # runs on the wall clock (sockets, threads): a failure is re-run once before it counts (core.run_family)
 
     name = "concurrent"
     parallel = False
